@@ -75,3 +75,19 @@ package storage
 //@ func NewFilter
 //@   requires matchersOK(matchers)
 //@   ensures result != nil
+
+// ---- series_selector.go: the one place where a storage querier is opened (C15, C17) --------------
+// The querier is closed exactly once on every way out: normal return, error of the series set, and
+// a panic raised by a storage callback (Select, series-set iteration). An error of Querier() or of
+// the series set is the error returned.
+//@ func (*seriesSelector).loadSeries
+//@   requires o != nil && o.storage != nil && ctx != nil
+//@   panics may
+//@   ensures[C15] open-error-surfaces: callres("promstorage.Queryable.Querier", 1, 1) != nil ==> result == callres("promstorage.Queryable.Querier", 1, 1)
+//@   ensures[C15] series-set-error-surfaces: callres("promstorage.Queryable.Querier", 1, 1) == nil ==>
+//@       (result != nil) == callres("promstorage.Querier.Select", 1).sfailed
+//@   ensures[C17] querier-closed-exactly-once: callres("promstorage.Queryable.Querier", 1, 1) == nil ==> callres("promstorage.Queryable.Querier", 1, 0).closes == 1
+//@   ensures[C17] one-querier-per-load: ncalls("promstorage.Queryable.Querier") == 1
+//@   onpanic[C17] querier-closed-exactly-once-when-a-callback-panics: ncalls("promstorage.Queryable.Querier") == 1 && ncalls("promstorage.Querier.Select") >= 1 ==>
+//@       callres("promstorage.Queryable.Querier", 1, 0).closes == 1
+//@   loop 0 invariant o != nil && i >= 0 && callres("promstorage.Queryable.Querier", 1, 0).closes == 0 && seriesSet != nil
